@@ -88,17 +88,13 @@ impl FeelZone {
         if let Ok(hours) = hours_match.as_str().parse::<i32>() {
           if let Some(minutes_match) = captures.name("offMinutes") {
             if let Ok(minutes) = minutes_match.as_str().parse::<i32>() {
-              let mut offset = 3600 * hours + 60 * minutes;
-              if let Some(seconds_match) = captures.name("offSeconds") {
-                if let Ok(seconds) = seconds_match.as_str().parse::<i32>() {
-                  offset += seconds;
-                }
-              }
+              let seconds = captures.name("offSeconds").and_then(|seconds_match| seconds_match.as_str().parse::<i32>().ok()).unwrap_or(0);
+              let mut offset = 3600 * hours + 60 * minutes + seconds;
               if sign_match.as_str() == "-" {
                 offset = -offset;
               }
-              if hours > 14 {
-                // the hour magnitude is limited to at most 14
+              if hours > 14 || minutes > 59 || seconds > 59 {
+                // the hour magnitude is limited to at most 14, minutes and seconds to at most 59
                 return None;
               }
               return Some(FeelZone::new(offset));
